@@ -249,10 +249,15 @@ def _summarise(cb):
     for l in range(1, cb.arg_count + 1):
         if cb.local_ty(l).startswith("&mut "):
             return None
+    branching = False
     for b in cb.normal_blocks():
         k = cb.term(b)["k"]
-        if k not in ("goto", "call", "drop", "return"):
+        if k == "switch":
+            branching = True
+        elif k not in ("goto", "call", "drop", "return"):
             return None
+    if branching:
+        return _summarise_predicate(cb)
     s = Sym(cb)
     ds = [d for d in cb.defs().get(0, []) if not cb.is_cleanup(d[0])]
     if len(ds) != 1 or ds[0][2] not in ("assign", "call"):
@@ -268,6 +273,47 @@ def _summarise(cb):
     if ncalls != _count_calls(s._def_expr(ds[0], 0)):
         return None
     return (cb.arg_count, e)
+
+
+def _summarise_predicate(cb):
+    """A bool function written with `matches!`/`match`/`if` that is true under exactly one atom over
+    its parameters (`matches!(self.purpose, Purpose::Declare)`): the call reads as that atom."""
+    if cb.local_ty(0) != "bool" or len(cb.blocks) > 12:
+        return None
+    if any(cb.term(b)["k"] == "call" for b in cb.normal_blocks()):
+        return None
+    s = Sym(cb)
+    pc = PathCond(cb, s)
+    if pc.back_edges():
+        return None
+    true = set()
+    for d in cb.defs().get(0, []):
+        blk, i, kind, node = d
+        if cb.is_cleanup(blk) or kind != "assign":
+            continue
+        e = strip_transparent(s._def_expr(d, 0))
+        cbool = _const_bool(e[1]) if e[0] == "const" else None
+        if cbool is None:
+            return None
+        if cbool:
+            try:
+                true |= pc.conditions(blk)
+            except RuntimeError:
+                return None
+    true = _absorb(true)
+    if len(true) != 1:
+        return None
+    (cs,) = true
+    if len(cs) != 1:
+        return None
+    ((e, v),) = cs
+    if not _closed(e):
+        return None
+    if isinstance(v, bool):
+        return (cb.arg_count, e if v else ("not", e))
+    if e[0] == "discr" and isinstance(v, str):
+        return (cb.arg_count, ("call", "is_variant", (e[1], ("const", v)), ()))
+    return None
 
 
 def _count_calls(e):
